@@ -84,4 +84,42 @@ inline bool check_lu(Ctx &cx, const Dense<typename Wide<T>::W> &AA, const int *p
     return true;
 }
 
+// F = Pr^T |L||U| Pc^T  ("|L||U| permuted back"): F(i,j) = E(perm_r[i], perm_c[j]); transposed on request.
+inline Dense<LD> permute_back(const Dense<LD> &E, const int *perm_r, const int *perm_c, int n, bool transposed)
+{
+    Dense<LD> F(n, n);
+    for (int j = 0; j < n; ++j) for (int i = 0; i < n; ++i) { LD v = E(perm_r[i], perm_c[j]); if (transposed) F(j, i) = v; else F(i, j) = v; }
+    return F;
+}
+
+// Componentwise residual bound for the returned solution of Op * X = B0:
+//   |B0 - Op*X|_i <= rdiv_i^{-1} * cmult*c*n*u * (F |X ./ ydiv|)_i + 4u (|Op||X| + |B0|)_i + n*u*|B0|_i + tiny
+// F: bound matrix matching Op (already transposed if needed). ydiv / rdiv: the scalings applied to the
+// solution / right-hand side inside the driver (null = none).
+template <class T>
+inline bool check_residual(Ctx &cx, const Dense<typename Wide<T>::W> &Op, const Dense<LD> &F, const T *X, int ldx, const T *B0, int ldb,
+                           int nrhs, const LD *ydiv, const LD *rdiv, LD cmult, const char *O = "residual")
+{
+    typedef typename Wide<T>::W W;
+    int n = Op.m;
+    LD uu = Consts<T>::u(), tol = cmult * Consts<T>::c() * n * uu;
+    for (int j = 0; j < nrhs; ++j) {
+        std::vector<LD> ay(n), ax(n);
+        for (int i = 0; i < n; ++i) {
+            W x = widen<T>(X[(size_t)j * ldx + i]);
+            if (!finite_w(x)) { cx.skip("overflow-degenerate"); return true; }
+            ax[i] = absm(x); ay[i] = ydiv ? ax[i] / ydiv[i] : ax[i];
+        }
+        for (int i = 0; i < n; ++i) {
+            W r = widen<T>(B0[(size_t)j * ldb + i]); LD ab = absm(r), fx = 0, opx = 0;
+            for (int k = 0; k < n; ++k) { W a = Op(i, k); if (a != W(0)) { r -= a * widen<T>(X[(size_t)j * ldx + k]); opx += absm(a) * ax[k]; } fx += F(i, k) * ay[k]; }
+            LD bound = tol * fx / (rdiv ? rdiv[i] : (LD)1) + 4 * uu * (opx + ab) + n * uu * ab + n * Consts<T>::safmin();
+            if (!std::isfinite((double)bound)) { cx.skip("overflow-degenerate"); return true; }
+            LD res = absm(r);
+            if (!(res <= bound)) VF_FAILB(cx, O, "rhs %d row %d: |b - op(A)x| = %.6Lg exceeds the factor-derived bound %.6Lg (c*n*eps*(|L||U||x|)_i = %.3Lg, |b_i| = %.3Lg, x_i = %s)", j, i, res, bound, tol * fx, ab, w_str(widen<T>(X[(size_t)j * ldx + i])).c_str());
+        }
+    }
+    return true;
+}
+
 }  // namespace vf
